@@ -109,4 +109,9 @@ where
     fn verif_reg(&self) -> Option<(bool, f64, f64)> {
         Some(self.factors.verif_reg())
     }
+
+    #[cfg(clarabel_verif)]
+    fn verif_values(&self) -> Option<Vec<f64>> {
+        Some(self.factors.verif_input_values())
+    }
 }
